@@ -50,6 +50,7 @@ CONSTANTS
   RecvConn,      \* connection window sozu is configured to advertise (>= ConnInit)
   Reaper,        \* BOOLEAN: the window-stall reaper may fire
   Legal,         \* BOOLEAN: the peer sends only legal WINDOW_UPDATE / SETTINGS
+  Resets,        \* BOOLEAN: the peer may give a stream up (RST_STREAM)
   BurstMin,      \* frames a peer must send back to back before deviation LoopBudget can apply
   Deviations     \* open findings switched on (known_findings.json): "LoopBudget", "ResetDropsFrameTail"
 
@@ -204,7 +205,7 @@ Peer_Starve(s) == G_PeerStarve(s) /\ E_PeerStarve(s)
 
 \* RST_STREAM from the peer: it gives the stream up.  sozu owes nothing more on it; frames of the stream that were
 \* already on their way may still arrive (they obey the windows like any other), so sozu's half is left as it is.
-G_PeerRst(s) == s \in ids /\ sst[s] # "reset" /\ pst[s] # "cancel"
+G_PeerRst(s) == Resets /\ s \in ids /\ sst[s] # "reset" /\ pst[s] # "cancel"
 E_PeerRst(s) ==
   /\ pst' = [pst EXCEPT ![s] = "cancel"] /\ up' = [up EXCEPT ![s] = 0] /\ Quiet
   /\ UNCHANGED <<pend, nset, eff, connWin, strWin, ids, sst, rem, nextOurs, lastPeer, cont, needUpd, advInit, advConn,
